@@ -188,6 +188,7 @@ var c11coalesce = &h.Campaign[CoalesceCase]{
 type CadenceCase struct {
 	IntervalMs int `json:"interval_ms"`
 	Polls      int `json:"polls"`
+	SlowPct    int `json:"slow_pct"` // every poll request takes this percentage of the interval (0 = instant)
 }
 
 func runCadence(t *testing.T, c CadenceCase) (v *h.Violation, info h.Info) {
@@ -195,11 +196,21 @@ func runCadence(t *testing.T, c CadenceCase) (v *h.Violation, info h.Info) {
 		svc := fake.NewSvc()
 		svc.Set("a", 1, valueOf("a", 1))
 		interval := time.Duration(c.IntervalMs) * time.Millisecond
+		if c.SlowPct > 0 {
+			defer func() {
+				if v == nil {
+					info.Class("polls-take-a-while")
+				}
+			}()
+		}
 		t0 := time.Now()
 		st, err := setec.NewStore(context.Background(), setec.StoreConfig{Client: svc, Secrets: []string{"a"}, PollInterval: interval, Logf: nolog})
 		if err != nil {
 			v = h.V("harness", "NewStore: %v", err)
 			return
+		}
+		if c.SlowPct > 0 {
+			svc.SetDefault("a", fake.Beh{Kind: "ok", DelayMs: c.IntervalMs * c.SlowPct / 100})
 		}
 		l0 := svc.LogLen()
 		time.Sleep(time.Duration(float64(interval)*1.1*float64(c.Polls)) + interval/2)
@@ -237,10 +248,11 @@ func runCadence(t *testing.T, c CadenceCase) (v *h.Violation, info h.Info) {
 
 var c11cadence = &h.Campaign[CadenceCase]{
 	Prop: "C11", Sub: "cadence",
-	Rule: "rapid + synctest: the store's own ticker under virtual time for generated intervals (20 ms - 3 h) and 2-8 polls; poll instants must be t0 + k*p with one p in [0.9*I, 1.1*I]; every case is non-trivial; distinct by (interval, polls)",
+	Rule: "rapid + synctest: the store's own ticker under virtual time for generated intervals (20 ms - 3 h), 2-8 polls, poll requests that are instant or take 20-60 % of the interval; poll instants must be t0 + k*p with one p in [0.9*I, 1.1*I]; every case is non-trivial; distinct by (interval, polls)",
 	Quick: 300, Thorough: 100000,
 	Gen: func(rt *rapid.T) CadenceCase {
-		return CadenceCase{IntervalMs: rapid.OneOf(rapid.IntRange(20, 5000), rapid.IntRange(5000, 10800000)).Draw(rt, "interval"), Polls: rapid.IntRange(2, 8).Draw(rt, "polls")}
+		return CadenceCase{IntervalMs: rapid.OneOf(rapid.IntRange(20, 5000), rapid.IntRange(5000, 10800000)).Draw(rt, "interval"), Polls: rapid.IntRange(2, 8).Draw(rt, "polls"),
+			SlowPct: rapid.SampledFrom([]int{0, 0, 20, 35, 60}).Draw(rt, "slowpct")}
 	},
 	Run: runCadence,
 }
